@@ -239,6 +239,15 @@ def _exec_plateau(plan, out, tr):
         i = o["id"]
         if o["op"] == "read":
             _cmp_state("plateau", ctl, ref, i, True)
+            if i % 2 == 0:
+                # checkpoint / resume: the scheduler's state goes through state_dict() into a newly built scheduler,
+                # which carries on (stopped stays stopped, counters as they were)
+                sd = dict(ctl.state_dict())
+                ctl2 = StopOnPlateau(opt, steps=c["steps"], patience=c["patience"], decreasing=d, verbose=bool(c.get("verbose")))
+                ctl2.load_state_dict(sd)
+                ctl = ctl2
+                out.probe("scheduler:state_dict-roundtrip")
+                _cmp_state("plateau", ctl, ref, i, True, ":resumed")
             continue
         if o["op"] != "step":
             continue
@@ -294,7 +303,12 @@ def _exec_bason(plan, out, tr):
     if ls != 1.0:
         out.probe("tiny-loss-magnitudes")
     b = max(1, c["batch"])
-    mk = lambda: ReduceToBason(steps=c["steps"], patience=c["patience"], decreasing=d, tol=tol, verbose=bool(c.get("verbose")))
+    if rng.H(plan["seed"], "positional-ctor") % 3 == 0:
+        # the documented positional order: ReduceToBason(steps, patience, decreasing, tol, verbose)
+        mk = lambda: ReduceToBason(c["steps"], c["patience"], d, tol, bool(c.get("verbose")))
+        out.probe("ctor:positional")
+    else:
+        mk = lambda: ReduceToBason(steps=c["steps"], patience=c["patience"], decreasing=d, tol=tol, verbose=bool(c.get("verbose")))
     ctl = mk()
     ref = RefCtl(c["steps"], c["patience"])
     base = (max(tol, 1e-6 * ls) * 1e5 + 3.0 * ls)
